@@ -179,16 +179,13 @@ Proof. exact untimed_skip. Qed.
    content-model error flag, and model elements that are [same_node]: equal but for runs of adjacent anonymous spans t1 .. tn where
    the other has the one anonymous span t1 ++ .. ++ tn.  In particular the implicit end is the same: text after a non-content child
    makes a paragraph indefinite exactly like any other text.
-   Hypothesis: x is outside the shape style_after_break (a region with timeContainer="seq" in which a timed child other than a set is
-   followed by a child that is not kept and then by a nested style): there the reader is not transparent
-   (Findings/C04.v C04_noncontent_children_transparent_refuted; no valid TTML2 document has the shape). *)
-Theorem C04_noncontent_children_transparent : forall ev pc x,
-  style_after_break x = false -> pres_rel (process ev pc x) (process ev pc (strip x)).
-Proof. intros ev pc x H. exact (transparent ev x H pc). Qed.
+   For every tree: since the repair of seq-region-break-hides-nested-style (the children of a sequential container that follow a child with
+   an indefinite end are skipped one by one, so that the nested styles of a region are read wherever they stand) there is no exception. *)
+Theorem C04_noncontent_children_transparent : forall ev pc x, pres_rel (process ev pc x) (process ev pc (strip x)).
+Proof. intros ev pc x. exact (transparent ev x pc). Qed.
 (* the whole document: tt, head, layout and styling read the children they know (head and body; layout and styling; region; initial and
    style) and nothing else - no other child, no text, no tail - and the body and the regions are read as above *)
-Theorem C04_read_noncontent_transparent : forall tm vl x, x_tag x = T_tt -> style_after_break x = false ->
-  dres_rel (read_tt tm vl x) (read_tt tm vl (strip x)).
+Theorem C04_read_noncontent_transparent : forall tm vl x, x_tag x = T_tt -> dres_rel (read_tt tm vl x) (read_tt tm vl (strip x)).
 Proof. exact read_tt_transparent. Qed.
 (* the specification itself is transparent, without exception: the TTML2 interval of every tree is the interval of the tree without the
    children that are no content (a text after such a child makes a paragraph indefinite like any other text; nothing inside such a child
@@ -218,8 +215,8 @@ Example C04_example_seq_indefinite :
   | _ => false
   end = true.
 Proof. vm_compute. reflexivity. Qed.
-(* children that are no content: <p>Hello <metadata begin="5s"><ttm:desc>x</ttm:desc></metadata>world<!-- c -->!<f:x/></p> is outside the
-   shape style_after_break, [strip] gives <p>Hello world!</p>, the reader makes three anonymous spans of the first and one of the second;
+(* children that are no content: of <p>Hello <metadata begin="5s"><ttm:desc>x</ttm:desc></metadata>world<!-- c -->!<f:x/></p>
+   [strip] makes <p>Hello world!</p>, the reader makes three anonymous spans of the first and one of the second;
    <p><span begin="1s" end="2s">one</span><metadata/>two</p> never ends (the tail of the metadata element is text of the paragraph), and
    C04_interval applies to it: the specification says the same *)
 Definition ex_env : env := mkEnv 1 (30 # 1) [] (fun _ _ => None) (fun _ _ => true) [].
@@ -230,7 +227,6 @@ Definition ex_mixed : xml :=
      X T_comment [] (Some [32; 99; 32]) (Some [33]) [];
      X (100, [120]) [] None None []].
 Example C04_example_noncontent_strip :
-  style_after_break ex_mixed = false /\
   strip ex_mixed = X T_p [] (Some [72; 101; 108; 108; 111; 32; 119; 111; 114; 108; 100; 33]) None [] /\
   match process ex_env ex_pc ex_mixed, process ex_env ex_pc (strip ex_mixed) with
   | POk r, POk r' =>
@@ -242,6 +238,19 @@ Example C04_example_noncontent_strip :
   | _, _ => False
   end.
 Proof. repeat split. Qed.
+(* the shape of the repaired finding: <region xml:id="r" timeContainer="seq"><p>a</p><metadata/><style tts:color="x"/></region> - the nested
+   style after the metadata element is read (the region gets the style), as in the document without the metadata element *)
+Definition ex_env_color : env :=
+  mkEnv 1 (30 # 1) [] (fun q _ => if qname_eqb q (NS_TTS, [99; 111; 108; 111; 114]) then Some (1, SO 0) else None) (fun _ _ => true) [].
+Definition ex_seq_region : xml :=
+  X T_region [(A_id, [114]); (A_timeContainer, V_seq)] None None
+    [X T_p [] (Some [97]) None []; X T_metadata [] None None []; X T_style [((NS_TTS, [99; 111; 108; 111; 114]), [120])] None None []].
+Example C04_example_seq_region_nested_style :
+  match process ex_env_color ex_pc ex_seq_region with
+  | POk r => match r_node r with Some (MElem KRegion _ _ _ _ _ _ st _ _) => st = [(1, SO 0)] | _ => False end
+  | _ => False
+  end /\ process ex_env_color ex_pc (strip ex_seq_region) = process ex_env_color ex_pc ex_seq_region.
+Proof. split; reflexivity. Qed.
 Definition ex_tail : xml :=
   X T_p [] None None
     [X T_span [(A_begin, [49; 115]); (A_end, [50; 115])] (Some [111; 110; 101]) None []; X T_metadata [] None (Some [116; 119; 111]) []].
